@@ -73,7 +73,7 @@ class PairStream:
     one exists), mixed with independent uniform pairs; `budget` pairs at most."""
 
     def __init__(self, rng, b1, b2, budget):
-        self.rng, self.b1, self.b2, self.left = rng, b1, b2, budget
+        self.rng, self.b1, self.b2, self.left = rng, b1, b2, 2 * budget + 10
         self.all = [(i, j) for i in range(b1) for j in range(b2)]
         rng.shuffle(self.all)
         self.pos = 0
@@ -412,7 +412,16 @@ def run(ctx):
     # ------------------------------------------------------------------
     reqs, impl = [], []
     for _ in range(25 if quick else 250):
-        n, A, D, eps, mode = geo_case("method")
+        for _try in range(12):
+            n, A, D, eps, mode = geo_case("method")
+            if A.sum() == 0:
+                continue
+            # screen with the compiled kernel itself: is any rewiring admissible?
+            el = edge_list(A)
+            ok, _d = call_geo_kernel(mode, 1, A.astype(ADJ), D, eps, np.array(el, dtype=NODE),
+                                     A.sum(axis=1).astype(DEGREE), len(el) ** 2 + 5)
+            if ok or rng.random() < 0.1:
+                break
         if A.sum() == 0:
             continue
         grid = Grid(np.arange(2.0), np.array([np.arange(n) * 1.0, np.arange(n) * 2.0]), silence_level=3)
@@ -494,8 +503,11 @@ def run(ctx):
 
     reqs, impl = [], []
     for _ in range(60 if quick else 500):
-        n = rng.choice([4, 5, 6, 7, 8, 9])
+        n = rng.choice([4, 5, 6, 7, 8, 9, 10, 11])
         gk, A = structured_graph(rng, n)
+        if rng.random() < 0.5:
+            gk, A = "random", rand_graph(rng, n, rng.choice([0.3, 0.5]))
+        ctx.count(f"cross:graph={gk}")
         pk, n1, n2 = partition(n)
         m1, m2 = len(n1), len(n2)
         A0 = A.astype(ADJ)
